@@ -15,3 +15,20 @@ package replication
 //@   ensures [copies-only-while-holding-a-unit] repMulti(br.base) <= old(repMulti(br.base)) + 1
 //@   ensures [copiers-verdict-reported] repMulti(br.base) != old(repMulti(br.base)) ==> result == repErr(br.base)
 //@   callrequires ReplicateMultiple [copies-only-while-holding-a-unit] semHeld(br.semaphore) == old(semHeld(br.semaphore)) + 1
+
+// The single-object entry points go through ReplicateMultiple of this very
+// replicator: the wrapped replicator is never called without a unit.
+//@ func (*concurrencyLimitingBlobReplicator).ReplicateSingle
+//@   requires br.base != nil && br.semaphore != nil && br.sink != nil
+//@   ensures [every-unit-given-back] semHeld(br.semaphore) == old(semHeld(br.semaphore))
+//@   ensures result != nil
+//@   callrequires ReplicateMultiple [copies-only-while-holding-a-unit] semHeld(br.semaphore) == old(semHeld(br.semaphore)) + 1
+//@   callrequires ReplicateSingle [copies-only-while-holding-a-unit] false
+//@   callrequires ReplicateComposite [copies-only-while-holding-a-unit] false
+//@ func (*concurrencyLimitingBlobReplicator).ReplicateComposite
+//@   requires br.base != nil && br.semaphore != nil && br.sink != nil
+//@   ensures [every-unit-given-back] semHeld(br.semaphore) == old(semHeld(br.semaphore))
+//@   ensures result != nil
+//@   callrequires ReplicateMultiple [copies-only-while-holding-a-unit] semHeld(br.semaphore) == old(semHeld(br.semaphore)) + 1
+//@   callrequires ReplicateSingle [copies-only-while-holding-a-unit] false
+//@   callrequires ReplicateComposite [copies-only-while-holding-a-unit] false
